@@ -11,11 +11,11 @@ use serde_json::{json, Value};
 pub struct C15;
 
 #[derive(Clone, Debug, Serialize, Deserialize)]
-enum RIn { Ipa(Vec<String>), Group(char), Matrix(Vec<(usize, bool)>), Bound }
+enum RIn { Ipa(Vec<String>), Group(char), Matrix(Vec<(usize, bool)>), Bound, Seq(Vec<RIn>) }
 #[derive(Clone, Debug, Serialize, Deserialize)]
 enum ROut { Repl(String), Plus(String), Empty }
 
-fn rin_text(i: &RIn) -> String { match i { RIn::Ipa(v) => v.concat(), RIn::Group(c) => c.to_string(), RIn::Matrix(fs) => format!("[{}]", fs.iter().map(|(f, b)| format!("{}{}", if *b { "+" } else { "-" }, FEATS[*f].0)).collect::<Vec<_>>().join(",")), RIn::Bound => "$".into() } }
+fn rin_text(i: &RIn) -> String { match i { RIn::Ipa(v) => v.concat(), RIn::Group(c) => c.to_string(), RIn::Matrix(fs) => format!("[{}]", fs.iter().map(|(f, b)| format!("{}{}", if *b { "+" } else { "-" }, FEATS[*f].0)).collect::<Vec<_>>().join(",")), RIn::Bound => "$".into(), RIn::Seq(xs) => xs.iter().map(rin_text).collect::<Vec<_>>().join(" ") } }
 fn rout_text(o: &ROut) -> String { match o { ROut::Repl(s) => s.clone(), ROut::Plus(s) => format!("+{s}"), ROut::Empty => "*".into() } }
 
 /// the harness's rewrite of the default rendering by a romaniser table (first matching transformation per position)
@@ -29,12 +29,18 @@ fn model_render(w: &MWord, table: &[(RIn, ROut)]) -> Option<String> {
         'outer: while j < sy.segs.len() {
             if j != 0 && sy.segs[j] == sy.segs[j - 1] { buf.push('ː'); j += 1; continue }
             for (inp, out) in table {
-                let n = match inp {
-                    RIn::Bound => continue,
-                    RIn::Ipa(gs) => { if j + gs.len() <= sy.segs.len() && gs.iter().enumerate().all(|(k, x)| t.by_name.get(x) == Some(&sy.segs[j + k])) { gs.len() } else { continue } }
-                    RIn::Group(c) => if group_matches(*c, &sy.segs[j]) { 1 } else { continue },
-                    RIn::Matrix(fs) => if fs.iter().all(|(f, b)| sy.segs[j].matches(*f, *b)) { 1 } else { continue },
-                };
+                // number of positions an input consumes at `at`, or None
+                fn consume(inp: &RIn, segs: &[MSeg], at: usize) -> Option<usize> {
+                    let t = tables();
+                    match inp {
+                        RIn::Bound => None,
+                        RIn::Ipa(gs) => if at + gs.len() <= segs.len() && gs.iter().enumerate().all(|(k, x)| t.by_name.get(x) == Some(&segs[at + k])) { Some(gs.len()) } else { None },
+                        RIn::Group(c) => if at < segs.len() && group_matches(*c, &segs[at]) { Some(1) } else { None },
+                        RIn::Matrix(fs) => if at < segs.len() && fs.iter().all(|(f, b)| segs[at].matches(*f, *b)) { Some(1) } else { None },
+                        RIn::Seq(xs) => { let mut k = 0; for x in xs { k += consume(x, segs, at + k)?; } Some(k) }
+                    }
+                }
+                let Some(n) = consume(inp, &sy.segs, j) else { continue };
                 match out { ROut::Repl(r) => buf.push_str(r), ROut::Plus(r) => { for k in 0..n { buf.push_str(&g(&sy.segs[j + k])?); } buf.push_str(r); } ROut::Empty => {} }
                 j += n; continue 'outer;
             }
@@ -77,7 +83,10 @@ impl Property for C15 {
                         let inp = match t.weighted(&[6, 2, 2, 1]) {
                             0 => { let a = if !segs.is_empty() && t.chance(4, 5) { segs[t.pick(segs.len())].0.clone() } else { pool().common[t.pick(pool().common.len())].text.clone() };
                                    if t.chance(1, 5) { let b = pool().common[t.pick(pool().common.len())].text.clone(); RIn::Ipa(vec![a, b]) } else { RIn::Ipa(vec![a]) } }
-                            1 => RIn::Group(GROUPS[t.pick(GROUPS.len())]),
+                            1 => { let gr = RIn::Group(GROUPS[t.pick(GROUPS.len())]);
+                                   // a sequence mixing a literal and a group/matrix (`kV`, `V n`)
+                                   if t.chance(1, 3) { let a = if !segs.is_empty() && t.chance(4, 5) { segs[t.pick(segs.len())].0.clone() } else { pool().common[t.pick(pool().common.len())].text.clone() };
+                                       if t.chance(1, 2) { RIn::Seq(vec![RIn::Ipa(vec![a]), gr]) } else { RIn::Seq(vec![gr, RIn::Ipa(vec![a])]) } } else { gr } }
                             2 => { let f = t.pick(14); let mut fs = vec![(f, t.chance(1, 2))]; if t.chance(1, 3) { let f2 = t.pick(14); if f2 != f { fs.push((f2, t.chance(1, 2))); } } RIn::Matrix(fs) }
                             _ => RIn::Bound,
                         };
